@@ -1503,6 +1503,26 @@ class Gen:
                 return self.tr(e[2][0], env, lambda a, t: k(a, "Wad"), ret)
             raise Unsupported(f"call of {f} ({pure_err})")
         if kind == "mcall" and self.strip(e[1])[0] == "var" and env.get(self.strip(e[1])[1], ("", ""))[1].startswith("Client:") \
+                and isinstance(getattr(self, "reads", {}).get(env[self.strip(e[1])[1]][1][7:] + "_" + e[2]), tuple) \
+                and self.reads[env[self.strip(e[1])[1]][1][7:] + "_" + e[2]][0] == "fn":
+            # a value-returning cross-contract call through a client variable: a function of the reads record
+            cname = env[self.strip(e[1])[1]][1][7:] + "_" + e[2]
+            spec = self.reads[cname]
+            cargs = [a for a in e[3] if not self.is_handle(a, env)]
+            if len(cargs) != len(spec[1]):
+                raise Unsupported(f"{cname}: arity")
+            self.uses_reads = True
+            atoms = []
+            def goy(j):
+                if j == len(cargs):
+                    v_ = self.fresh()
+                    return f"(Comp.bind (envr.{cname} {' '.join(atoms)}) fun {v_} =>\n {k(v_, spec[2])})"
+                def ky(a, t):
+                    atoms.append(as_nat(a, t) if spec[1][j] in NATTY else a)
+                    return goy(j + 1)
+                return self.tr(cargs[j], env, ky, ret)
+            return goy(0)
+        if kind == "mcall" and self.strip(e[1])[0] == "var" and env.get(self.strip(e[1])[1], ("", ""))[1].startswith("Client:") \
                 and (self.cur_ns, env[self.strip(e[1])[1]][1][7:] + "_" + e[2]) in self.sigs:
             cname = env[self.strip(e[1])[1]][1][7:] + "_" + e[2]
             return self.tr(("call", ("var", cname), [("var", "e")] + list(e[3])), env, k, ret)
@@ -2466,13 +2486,23 @@ STORE_AC = {"Access": {"HasRole": (["Address", "Symbol"], "u32"), "Admin": ([], 
 FILES_AC = [("Access", "packages/access/src/access_control/storage.rs",
              ["has_role", "get_admin", "get_role_admin", "ensure_if_admin_or_admin_role", "ensure_role"])]
 STORE_RWA = {"Rwa": {"Balance": (["Address"], "i128"), "TotalSupply": ([], "i128"), "AddressFrozen": (["Address"], "bool"),
-                     "FrozenTokens": (["Address"], "i128"), "Compliance": ([], "Address")}}
-READS_RWA = {"Rwa": {"ComplianceClient_transferred": ("fn", ["Address", "Address", "i128"], "()"),
-                     "ComplianceClient_destroyed": ("fn", ["Address", "i128"], "()")}}
-FILES_RWA = [("Rwa", "packages/tokens/src/fungible/storage.rs", ["total_supply", "balance", "update"]),
+                     "FrozenTokens": (["Address"], "i128"), "Compliance": ([], "Address"), "IdentityVerifier": ([], "Address"),
+                     "Paused": ([], "bool"), "Allowance": (["AllowanceKey"], "AllowanceData")}}
+READS_RWA = {"Rwa": {"ledger_sequence": "u32", "max_live_until_ledger": "u32", "authorized": "addr2bool",
+                     "ComplianceClient_transferred": ("fn", ["Address", "Address", "i128"], "()"),
+                     "ComplianceClient_destroyed": ("fn", ["Address", "i128"], "()"),
+                     "ComplianceClient_created": ("fn", ["Address", "i128"], "()"),
+                     "ComplianceClient_can_transfer": ("fn", ["Address", "Address", "i128"], "bool"),
+                     "ComplianceClient_can_create": ("fn", ["Address", "i128"], "bool"),
+                     "IdentityVerifierClient_verify_identity": ("fn", ["Address"], "()"),
+                     "IdentityVerifierClient_recovery_target": ("fn", ["Address"], "Option<Address>")}}
+FILES_RWA = [("Rwa", "packages/contract-utils/src/pausable/storage.rs", ["paused"]),
+             ("Rwa", "packages/tokens/src/fungible/storage.rs",
+              ["total_supply", "balance", "allowance_data", "allowance", "set_allowance", "spend_allowance", "update"]),
              ("Rwa", "packages/tokens/src/rwa/storage.rs",
-              ["is_frozen", "get_frozen_tokens", "get_free_tokens", "compliance", "set_address_frozen", "freeze_partial_tokens",
-               "unfreeze_partial_tokens", "forced_transfer", "burn"])]
+              ["is_frozen", "get_frozen_tokens", "get_free_tokens", "compliance", "identity_verifier", "set_address_frozen",
+               "freeze_partial_tokens", "unfreeze_partial_tokens", "forced_transfer", "burn", "validate_transfer", "transfer",
+               "transfer_from", "mint", "recover_balance"])]
 STORE_TL = {"TimelockSt": {"MinDelay": ([], "u32"), "OperationLedger": (["Bytes32"], "u32")}}
 STRUCTS_TL = {"Operation": [("target", "Address"), ("function", "u32"), ("args", "u32"), ("predecessor", "Bytes32"), ("salt", "Bytes32")]}
 READS_TL = {"TimelockSt": {"ledger_sequence": "u32", "hash_operation": ("purefn", ["Operation"], "Bytes32")}}
@@ -3067,7 +3097,8 @@ def main():
         elif "--access" in sys.argv:
             txt = translate(repo, FILES_AC, reads={"Access": {}}, store=STORE_AC)
         elif "--rwa" in sys.argv:
-            txt = translate(repo, FILES_RWA, reads=READS_RWA, store=STORE_RWA, impl_types={"Base": "Rwa", "RWA": "Rwa"})
+            txt = translate(repo, FILES_RWA, reads=READS_RWA, structs=STRUCTS_FUNGIBLE, store=STORE_RWA, impl_types={"Base": "Rwa", "RWA": "Rwa"},
+                            rename_types={"AllowanceData": "Rwa.AllowanceData", "AllowanceKey": "Rwa.AllowanceKey"})
         elif "--timelock-st" in sys.argv:
             txt = translate(repo, FILES_TL, reads=READS_TL, structs=STRUCTS_TL, store=STORE_TL,
                             tymaps={"packages/governance/src/timelock/storage.rs": {"BytesN<32>": "Bytes32"}},
